@@ -10,7 +10,7 @@ RPROGS = ['A3/L3x/A0/L3L0TL3', 'A0A3/L3x/L0X/L3L0TL3', 'A0A3/L3x/L0P2/TL3L0T', '
 def reclaim_cases(ctx):
     return [(prog, '>0>0' + 'a' * 8 + '1b' * p + '>2>2>2' + 'c' * 8 + '>1>1' + 'b' * 8, cf) for prog in RPROGS for p in range(1, 60 if ctx.quick() else 140)
             for cf in ([('1', '8', 'o')] if ctx.quick() else [('1', '8', 'o'), ('2', '8', 'o'), ('4', '8', 'c')])]
-PROGS = ['A0L0X/L0X/L0X', 'A0A1L0X/L0XL1X/L1XL0X', 'A0L0XL0X/L0XA1/L0X', 'A5A0/L5XL0X/L0XL5X/L5X']
+PROGS = ['A0L0P7/L0P2/L0X/L0', 'A0L0X/L0X/L0X', 'A0A1L0X/L0XL1X/L1XL0X', 'A0L0XL0X/L0XA1/L0X', 'A5A0/L5XL0X/L0XL5X/L5X']
 def run(ctx):
     ctx.cov['source_hash'] = source_hash(L.FILES)
     prove(ctx)
